@@ -54,6 +54,113 @@ def _worker(args):
         signal.alarm(0)
 
 
+def _float_only(args):
+    """fallback for a unit whose symbolic run killed its process (crash / hard hang inside C
+    code): the float oracle alone, at random points, in a fresh process"""
+    unit, tier, seed = args
+    import random
+    import zlib
+    import symx
+    symx.load_algopy()
+    from symx import runner
+    r = runner.new_result(unit)
+    rng = random.Random(zlib.crc32(unit.name.encode()) ^ seed)
+    v = runner.numeric_confirm(unit, rng)
+    if v is not None:
+        r['violations'].append(v)
+    return r
+
+
+def _child(fn, job, conn):
+    try:
+        conn.send(fn(job))
+    except BaseException as e:
+        try:
+            conn.send({'__error__': '%s: %s' % (type(e).__name__, str(e)[:300])})
+        except Exception:
+            pass
+    finally:
+        conn.close()
+
+
+def run_jobs(jobs, njobs, verbose=False):
+    """one forked process per unit (no state leaks from one unit into the next); a process that
+    dies (segfault) or hangs inside C code (no signal delivery) is killed after a hard limit and
+    the unit becomes inconclusive -- after a float-only retry that may still confirm a violation"""
+    import symx
+    symx.load_algopy()
+    from symx import runner
+    ctxm = mp.get_context('fork')
+    pending = list(jobs)[::-1]
+    running = {}
+    results = []
+
+    def launch(fn, job, retry):
+        parent, child = ctxm.Pipe(duplex=False)
+        p = ctxm.Process(target=_child, args=(fn, job, child))
+        p.start()
+        child.close()
+        unit, tier, seed = job
+        limit = int(unit.opts.get('unit_timeout', 150 if tier == 'quick' else 900))
+        running[p.pid] = (p, parent, job, time.time() + limit + 45, retry)
+
+    def failed(job, why, retry):
+        unit = job[0]
+        if not retry:
+            launch(_float_only, job, why)
+            return
+        r = runner.new_result(unit)
+        r['inconclusive'].append('%s: %s (never a pass); float-only retry: %s' % (unit.name, retry, why))
+        results.append(r)
+
+    while pending or running:
+        while pending and len(running) < njobs:
+            launch(_worker, pending.pop(), None)
+        done = []
+        for pid_, (p, conn, job, deadline, retry) in list(running.items()):
+            got = None
+            if conn.poll(0):
+                try:
+                    got = conn.recv()
+                except (EOFError, OSError):
+                    got = None
+                p.join(5)
+                if p.is_alive():
+                    p.kill()
+                done.append(pid_)
+                if isinstance(got, dict) and '__error__' not in got:
+                    if retry:
+                        # result of the float-only retry after a crash / hang of the symbolic run
+                        if not got['violations']:
+                            got['inconclusive'].append('%s: %s (never a pass); float oracle at random points found no discrepancy'
+                                                       % (job[0].name, retry))
+                    results.append(got)
+                    if verbose:
+                        r = got
+                        print('  %-60s paths=%d obl=%d syn=%d dis=%d %.1fs %s' % (
+                            r['unit'], r['paths'], r['obligations'], r['syntactic'], r['discharged'], r['wall_s'],
+                            'VIOL' if r['violations'] else ('INC' if r['inconclusive'] or r['not_encoded'] else '')), flush=True)
+                else:
+                    failed(job, 'worker error %s' % (got or {}).get('__error__', 'no result'), retry)
+            elif not p.is_alive():
+                done.append(pid_)
+                failed(job, 'worker process died (exit code %s)' % p.exitcode, retry)
+            elif time.time() > deadline:
+                p.kill()
+                p.join(5)
+                done.append(pid_)
+                failed(job, 'worker process killed after the hard time limit', retry)
+        for d in done:
+            p, conn, job, deadline, retry = running.pop(d)
+            try:
+                conn.close()
+            except Exception:
+                pass
+        if not done:
+            time.sleep(0.01)
+    return results
+
+
 def load_known(pid):
     """known_findings.txt: lines 'finding: property=<id> unit=<unit name> :: <what fails>'
     and 'fixed: property=<id> <commit> <what failed>' (fixed entries suppress nothing)"""
@@ -129,18 +236,7 @@ def main(argv=None):
     # biggest first
     jobs = [(u, a.tier, seed) for u in units]
     results = []
-    if a.jobs <= 1 or len(jobs) <= 1:
-        for j in jobs:
-            results.append(_worker(j))
-    else:
-        ctxm = mp.get_context('fork')
-        with ctxm.Pool(a.jobs, maxtasksperchild=20) as pool:
-            for r in pool.imap_unordered(_worker, jobs, chunksize=1):
-                results.append(r)
-                if a.v:
-                    print('  %-60s paths=%d obl=%d syn=%d dis=%d %.1fs %s' % (
-                        r['unit'], r['paths'], r['obligations'], r['syntactic'], r['discharged'], r['wall_s'],
-                        'VIOL' if r['violations'] else ('INC' if r['inconclusive'] or r['not_encoded'] else '')), flush=True)
+    results = run_jobs(jobs, max(1, a.jobs), verbose=a.v)
     results.sort(key=lambda r: r['unit'])
     from symx import report
     code = report.finish(pid, a.tier, seed, mod, units, results, time.time() - t0, load_known(pid),
